@@ -486,7 +486,10 @@ func (m c06) partial(c *Ctx, p *c06payload, schema *jsonapi.Schema, data []byte)
 
 func intLiterals(r *RNG, k int) []string {
 	lo, hi := intRange(k)
-	out := []string{"0", "-0", "1", "-1", "1.0", "1.5", "0.0", "-1.0", "1e2", "1E2", "1e0", "12e-1", "1e-2", "5e-1", "100e-2", "1e19", "1e20", "2.5e1", "1.00", "-1e3"}
+	out := []string{"0", "-0", "1", "-1", "1.0", "1.5", "0.0", "-1.0", "1e2", "1E2", "1e0", "12e-1", "1e-2", "5e-1", "100e-2", "1e19", "1e20", "2.5e1", "1.00", "-1e3",
+		// whole numbers in float notation beyond 2^53 (a detour through float64 rounds them) and near the limits
+		"9007199254740993.0", "9007199254740993e0", "-9007199254740993.0", "1234567890123456789e0", "123456789012345678.9e1", "9223372036854775807.0", "-9223372036854775808.0",
+		"9223372036854775807e0", "18446744073709551615.0", "18446744073709551615e0", "9007199254740992.5", "4611686018427387905.000", "1e18", "72057594037927937.0", "2147483647.0", "32767e0", "127.0", "255.0", "65535e0", "4294967295.0"}
 	for d := int64(-64); d <= 64; d++ {
 		out = append(out, new(big.Int).Add(lo, big.NewInt(d)).String(), new(big.Int).Add(hi, big.NewInt(d)).String())
 	}
@@ -515,9 +518,15 @@ var otherLiterals = []string{"null", "true", "false", "[]", "{}", "[1]", `{"a":1
 func timeLiterals(r *RNG) []string {
 	out := []string{`"2019-11-19T23:17:01-05:00"`, `"0001-01-01T00:00:00Z"`, `"9999-12-31T23:59:59.999999999Z"`, `"2020-02-29T12:00:00+14:00"`, `"2021-02-29T12:00:00Z"`, `"2019-13-01T00:00:00Z"`,
 		`"2019-01-01T24:00:00Z"`, `"2019-01-01T23:59:60Z"`, `"2019-01-01 00:00:00Z"`, `"2019-01-01t00:00:00z"`, `"2019-01-01T00:00:00"`, `"2019-01-01T00:00:00+24:00"`, `"2019-01-01"`, `""`, `"now"`,
-		`"2019-01-01T00:00:00.1234567891Z"`, `"2019-01-01T00:00:00,5Z"`, `"2019-1-1T00:00:00Z"`, `"2019-01-01T00:00:00-00:00"`, `"2019-06-30T23:59:59.5+05:30"`, `"1969-12-31T23:59:59.999999999Z"`}
+		`"2019-01-01T00:00:00.1234567891Z"`, `"2019-01-01T00:00:00,5Z"`, `"2019-1-1T00:00:00Z"`, `"2019-01-01T00:00:00-00:00"`, `"2019-06-30T23:59:59.5+05:30"`, `"1969-12-31T23:59:59.999999999Z"`,
+		// dates and times that do not exist (accepting one means storing some other instant)
+		`"2023-02-30T10:00:00Z"`, `"2023-02-29T10:00:00Z"`, `"1900-02-29T00:00:00Z"`, `"2024-02-30T00:00:00Z"`, `"2023-04-31T23:59:59Z"`, `"2023-06-31T00:00:00+02:00"`, `"2023-11-31T12:00:00.5Z"`, `"2023-00-10T00:00:00Z"`,
+		`"2023-01-00T00:00:00Z"`, `"2023-01-32T00:00:00Z"`, `"2023-12-31T24:00:00Z"`, `"2023-12-31T23:60:00Z"`, `"2000-02-29T00:00:00Z"`, `"2024-02-29T23:59:59Z"`}
 	for i := 0; i < 12; i++ {
 		y, mo, d := r.Range(1, 9999), r.Range(1, 12), r.Range(1, 28)
+		if i%4 == 3 {
+			d = r.Range(29, 31) // exists or not depending on month and year: my reader decides
+		}
 		h, mi, s := r.Range(0, 23), r.Range(0, 59), r.Range(0, 59)
 		frac := ""
 		if n := r.Intn(10); n > 0 {
